@@ -12,7 +12,7 @@ def gen(args):
     rng = np.random.default_rng([sd, wid, 303])
     out = []
     for t in range(ncases):
-        shape = ["tall", "wide", "square", "lowrank"][t % 4]
+        shape = ["tall", "wide", "square", "lowrank", "illcond"][t % 5]
         if shape == "tall":
             n, m = int(rng.integers(6, 9)), int(rng.integers(2, 5))
         elif shape == "wide":
@@ -24,13 +24,43 @@ def gen(args):
         Xi = P.centred_lattice(rng, n, m, 4, "lowrank" if shape == "lowrank" else "full")
         p = int(rng.integers(1, 3))
         Yi = P.centred_lattice(rng, n, p, 4)
-        a = int(rng.integers(0, 9))
+        xpert = None
+        if shape == "illcond":
+            # condition number about 1e7: the last column repeats the first one up to 2^-22 z, and the targets contain z, so
+            # the weak direction carries an O(1) part of the regression (a cut-off acting on SQUARED singular values loses it)
+            # the smallest eigenvalue of X^T X is placed inside the window (tol, tol * smax^2) - above the estimator's own
+            # (absolute) numerical-rank threshold tol = 1e-12, so the data is of full numerical rank for it, but below a
+            # threshold relative to the largest eigenvalue - with a factor of at least 3 to either side; no window, no case
+            z = P.centred_lattice(rng, n, 1, 4)[:, 0]
+            Xi[:, -1] = Xi[:, 0]
+            best = None
+            if np.linalg.matrix_rank(Xi[:, :-1]) == m - 1 and np.any(z):
+                def weakest(eps):
+                    Xt = Xi / 4.0
+                    Xt[:, -1] += z * eps
+                    ev = np.linalg.eigvalsh(Xt.T @ Xt)
+                    return ev[0], ev[-1]
+                l0, top = weakest(2.0 ** -20)
+                lo, hi = 3e-12, 1e-12 * top / 3
+                if l0 > 0 and hi >= lo:
+                    eps = 2.0 ** -20 * np.sqrt(np.sqrt(lo * hi) / l0)        # the weak eigenvalue scales with eps^2
+                    l1, _ = weakest(eps)
+                    if lo <= l1 <= hi:
+                        best = eps
+            if best is not None:
+                xpert = np.zeros((n, m)); xpert[:, -1] = z * best
+                Yi[:, 0] = np.clip(Yi[:, 0] + z, -8, 8); Yi[-1, 0] -= Yi[:, 0].sum()
+            else:
+                shape = "illcond-unavailable"
+        a = int(rng.choice([0, 0, 8, 1, 2, 3, 4, 5, 6, 7]))      # both end points more often than the interior values
         kmax = min(n, m)
         k = int(rng.integers(1, kmax + 1))
-        route = ["default", "ridge", "lr"][int(rng.integers(3))]
+        if a == 0 and rng.random() < 0.6:
+            k = int(rng.integers(min(p + 1, kmax), kmax + 1))     # more components than independent targets: zero-weight components retained
+        route = ["default", "ridge", "lr", "ridgeS"][int(rng.integers(4))]
         fits, groups = [], []
         # spectrum of the full problem (precondition "retained spectrum separated" is evaluated by the spec on it)
-        full = P.fit_record(Xi, Yi, a, kmax, "sample", "full", route)
+        full = P.fit_record(Xi, Yi, a, kmax, "sample", "full", route, xpert=xpert)
         if full["raised"]:
             out.append({"id": "w%d-%d" % (wid, t), "mode": "C03", "monoY": False, "X": Xi.tolist(), "Y": Yi.tolist(), "raised": True, "fits": [], "chains": [], "groups": [],
                         "msg": full.get("msg")})
@@ -46,7 +76,7 @@ def gen(args):
             pre = None
             if r == "pre":
                 pre = (full["_Yh"], full["_W"] if w == "W" else None)
-            rec = P.fit_record(Xi, Yi, a, k, space, solver, r, pre=pre, seed=int(rng.integers(100)))
+            rec = P.fit_record(Xi, Yi, a, k, space, solver, r, pre=pre, seed=int(rng.integers(100)), xpert=xpert)
             if rec["raised"]:
                 bad, msg = True, "%s/%s/%s: %s" % (space, solver, r, rec.get("msg"))
                 break
